@@ -83,6 +83,13 @@ func VerifC15IP4Header(appendMode int) {
 	verifAssume(n >= 0 && n <= 1480)
 	payload := verifBytes(1480)[:n]
 	ip := EncodeIP4(buf, ttl, src, dst)
+	// the header may be a reused one: whatever the checksum field holds before completion must not matter
+	stale := verifBytes(2)
+	ip[10], ip[11] = stale[0], stale[1]
+	if appendMode == 2 { // completing a header twice (second payload replaces the first)
+		ip = ip.SetPayload(verifBytes(8), verifU8())
+		appendMode = 0
+	}
 	if appendMode != 0 {
 		var err error
 		ip, err = ip.AppendPayload(payload, proto)
